@@ -80,6 +80,16 @@ func expand15(t *testing.T, seed uint64, tier string) []*core.Plan {
 					}
 				}
 				p.Items = items
+				if p.Knob("ppoll", 0) == 1 {
+					// ... and the publisher is lost by a write that fails before the
+					// packet travels: the broker sees that message for the first time
+					// as a retransmission, which the new message must not overtake
+					for i, it := range p.Items {
+						if it.K == "pcut" {
+							p.Items[i] = core.Item{K: "cfail", P: it.P, C: 1, A: 1, B: 0}
+						}
+					}
+				}
 			}
 		}
 	}
@@ -702,6 +712,19 @@ func (j *judgeCtx) judge() {
 					(r.kind == packet.PUBREL && !started[r.conn] && r.conn > 1 && !dupOn[fmt.Sprintf("%d/%d", r.conn, r.id)])
 				if r.kind == packet.PUBLISH && r.dup {
 					dupOn[fmt.Sprintf("%d/%d", r.conn, r.id)] = true
+					if started[r.conn] {
+						res.Count("e2e_client_retransmission_after_new_publish", 1)
+						// a newer message of the same QoS level written before the
+						// retransmission of an older one: the client cannot know whether
+						// the first transmission of the older one arrived, and where it
+						// did not, the subscribers get the two in the wrong order
+						for _, n := range q.sent[:i] {
+							if n.conn == r.conn && n.kind == packet.PUBLISH && !n.dup && n.tag/100000 == r.tag/100000 && n.tag > r.tag && j.pubQoS[n.tag] == j.pubQoS[r.tag] {
+								res.Violate("C15", "C15.e2e-client-new-before-resend", fmt.Sprintf("q%d", j.pubQoS[r.tag]), fmt.Sprintf("publisher %s, connection %d: message %d (QoS %d) was written before the retransmission of the older message %d of the same QoS level, whose first transmission may never have arrived: the subscribers would get the two in the wrong order", q.id, r.conn, n.tag%100000, j.pubQoS[n.tag], r.tag%100000))
+								break
+							}
+						}
+					}
 				}
 				if r.kind == packet.PUBLISH && !r.dup {
 					first[r.id] = i
